@@ -90,10 +90,20 @@ def run_status(res):
     return "inconclusive", f"{res.status}: {sig}"
 
 
-def finish(spec, res, acc, nontrivial, sample_extra=None, instruments=()):
+def finish(spec, res, acc, nontrivial, sample_extra=None, instruments=(), rows_judged=True):
     """Build the case result from a run, its accumulator and the non-triviality verdict."""
     st, note = run_status(res)
     tr = res.trace
+    mm = getattr(tr, "table_mismatch", 0)
+    if mm and rows_judged:
+        f = tr.table_mismatch_first
+        cols = {"flux": common.FLUX_COLS, "growth": common.GROWTH_COLS}.get(f["table"])
+        col = cols[f["col"]] if cols and 0 <= f["col"] < len(cols) else f["col"]
+        acc.add("reported-table-differs-from-step-output",
+                f"{mm} rows of the daily tables returned to the user differ from what the time step wrote, first at "
+                f"step {f['t']} column {col}: step wrote {f['step_value']!r}, table reports {f['reported']!r}",
+                dict(f, column=col), dict(table=f["table"]))
+    acc.cov["table_rows_reconciled"] += 3 * len(tr.steps) if hasattr(tr, "table_mismatch") else 0
     out = dict(violations=acc.v, cov=dict(acc.cov), n_violations=acc.total)
     out["cov"]["executions"] = out["cov"].get("executions", 0) + 1
     out["cov"]["steps"] = len(tr.steps)
